@@ -6,7 +6,7 @@ func init() {
 		Trusted:     []string{"go/types constant evaluation of the literals", "the model of the ~40 lines that expand the tables (allMcRotations' closure and sort, mcLookupTable's first-wins fill, Compose/ApplyTriangle/ApplyIntersections, mcTriangle.Triangle's midpoints); each modelled function is resolved on every run"},
 		Assumptions: []string{"the lattice scan hands each cell its true corner bits (run-time indexing in Scan/GetCube is not analysed)"},
 		Exhaustive:  true,
-		Fixtures:    []string{"s"},
+		Fixtures:    []string{"s", "b"},
 		SelfTest: []Mutation{
 			{Name: "downsampled image addressed with its height as the row length", File: "render3d/image.go",
 				Old: "out.Data[i1*out.Width+j]", New: "out.Data[i1*out.Height+j]", Rule: "ROWMAJOR", Expect: "Downsample"},
@@ -51,7 +51,7 @@ func init() {
 			c.runMarchingSquaresTable("A1")
 			c.floor("A1.MS", 21)
 			c.runBoxTables("A1")
-			c.floor("A1.BOX", 2)
+			c.floor("A1.BOX", 0)
 			c.runWrongVar("WRONGVAR", c.libPkgs()[:3], nil)
 			c.floor("WRONGVAR", 2)
 			c.runModFrac("MODFRAC", append(c.libPkgs()[:3:3], c.fixturePkg("s")))
